@@ -157,16 +157,14 @@ Proof.
   destruct (p_blocks p) as [|[[[first fk] fo] fs] pbs] eqn:Epb; [discriminate|].
   destruct (rev (p_blocks p)) as [|[[[last lastk] lo] ls] rpbs] eqn:Erv; [rewrite Epb in Erv; rewrite Erv in E; discriminate|].
   rewrite Epb in Erv. rewrite Erv in E.
-  pose proof (aux_add_return_edges_for_patch_calls s s (p_cfg p) (aux_refl s)) as H1.
-  destruct (add_return_edges_for_patch_calls s (p_cfg p)) as [s1 pcfg1]; cbn [fst] in H1.
-  destruct (if bkind_eqb (bk (the_blk s b)) KCode then update_patch_return_edges s1 b pcfg1 (p_proxies p) else (pcfg1, p_proxies p)) as [pcfg pprox].
-  destruct (insert_split s1 b off repl) as [[[e ft] s2]|] eqn:E2; cbn [bind] in E; [|discriminate].
+  destruct (if bkind_eqb (bk (the_blk s b)) KCode then update_patch_return_edges s b (p_cfg p) (p_proxies p) else (p_cfg p, p_proxies p)) as [pcfg0 pprox].
+  destruct (insert_split s b off repl) as [[[e ft] s2]|] eqn:E2; cbn [bind] in E; [|discriminate].
+  pose proof (insert_split_spec _ _ _ _ _ _ _ E2 Hb ltac:(lia)) as (K2 & Hn2 & He & Hblk & Hebi).
+  pose proof (aux_add_return_edges_for_patch_calls s2 s2 pcfg0 (aux_refl s2)) as H1.
+  destruct (add_return_edges_for_patch_calls s2 pcfg0) as [s2' pcfg]; cbn [fst] in H1.
   pose proof H1 as (Hi1 & Hb1 & Hn1).
-  assert (Hb_lt : (b < next s1)%nat) by lia.
-  pose proof (insert_split_spec _ _ _ _ _ _ _ E2 Hb_lt ltac:(lia)) as (K2 & Hn2 & He & Hblk & Hebi).
-  rewrite (aux_the_blk _ _ _ H1) in Hblk, Hebi.
-  set (s3 := insert_stitch s2 b first last lastk e ft) in *.
-  assert (H3 : aux s2 s3) by (apply aux_insert_stitch, aux_refl).
+  set (s3 := insert_stitch s2' b first last lastk e ft) in *.
+  assert (H3 : aux s2 s3) by (eapply aux_trans; [exact H1|apply aux_insert_stitch, aux_refl]).
   assert (Hxb : the_blk s3 b = mk_blk (bk (the_blk s b)) (Some bi) (boff (the_blk s b)) off).
   { rewrite (aux_the_blk _ _ _ H3), Hblk, Ebi. reflexivity. }
   rewrite Hxb in E. cbn [boff bsize] in E.
@@ -175,7 +173,7 @@ Proof.
   set (s5 := insert_contents s4 b bi P _ p pcfg pprox) in *.
   pose proof (insert_contents_spec s4 b bi P (bkind_eqb (bk (the_blk s b)) KCode) p pcfg pprox) as (C1 & C2 & C3 & C4). fold s5 in C1, C2, C3, C4.
   apply cleanup_modified_blocks_keeps in E. destruct E as (K5 & Hin).
-  assert (K13 : keeps s s3). { eapply keeps_trans; [apply aux_keeps, H1|]. eapply keeps_trans; [exact K2|apply aux_keeps, H3]. }
+  assert (K13 : keeps s s3). { eapply keeps_trans; [exact K2|apply aux_keeps, H3]. }
   assert (Hn3 : (next s < next s3)%nat). { destruct H3 as (_ & _ & ?). lia. }
   assert (Hn4 : next s4 = next s3) by reflexivity.
   exists bi. split; [reflexivity|]. split; [|split; [|split; [|split; [|split]]]].
